@@ -184,7 +184,9 @@ def classify(msg, line, off):
         return 'irrefutable-case-not-last'
     if 'null bytes' in msg:
         return 'null-byte-in-string'
-    if 'f-string' in msg:
+    # a double-quoted literal inside the braces of an f"..." (the tokenizer may complain about whatever follows the
+    # premature closing quote, so the message alone does not name the cause)
+    if 'f-string' in msg or re.search(r'\bf"[^"]*\{[^}"]*"', l):
         return 'f-string'
     if l.startswith('case ') or 'patterns may only match' in msg:
         return 'case-pattern-not-a-pattern'
